@@ -97,6 +97,107 @@ def _bad_ground_no_symmetry():
     return _stage_runner(build)
 
 
+def _bad_ground_no_symmetry_aerostruct():
+    def build():
+        spec = {"zoo": "Z9", "ny": 3, "nx": 2}
+        import openaerostruct.integration.aerostruct_groups  # noqa: F401
+
+        orig = zoo._tube_props
+
+        def tube_with_ground(**kw):
+            d = orig(**kw)
+            d["groundplane"] = True
+            return d
+
+        zoo._tube_props = tube_with_ground
+        try:
+            # Z9 = two full-span (symmetry False) tube surfaces; with groundplane=True this must be rejected.
+            # The zoo builder is stopped just before prob.setup() so that _stage_runner sees where it fails.
+            return _build_no_setup(spec)
+        finally:
+            zoo._tube_props = orig
+
+    return _stage_runner(build)
+
+
+def _build_no_setup(spec):
+    """Z9 with ground effect switched on for both (non-symmetric) surfaces, returned before setup()."""
+    import openmdao.api as om
+
+    holder = {}
+    orig_setup = zoo._setup
+
+    def capture(prob, spec_, driver=None):
+        holder["prob"] = prob
+        raise _Captured()
+
+    zoo._setup = capture
+    try:
+        flight_orig = zoo._as_flight
+
+        def flight(*a, **k):
+            f = flight_orig(*a, **k)
+            f["height_agl"] = (30.0, "m")
+            return f
+
+        zoo._as_flight = flight
+        try:
+            zoo.ZOO["Z9"](dict(spec))
+        except _Captured:
+            pass
+        finally:
+            zoo._as_flight = flight_orig
+    finally:
+        zoo._setup = orig_setup
+    return holder.get("prob")
+
+
+class _Captured(Exception):
+    pass
+
+
+def _bad_ground_second_surface_not_symmetric():
+    import openmdao.api as om
+    from openaerostruct.geometry.utils import generate_mesh
+    from openaerostruct.geometry.geometry_group import Geometry
+    from openaerostruct.aerodynamics.aero_groups import AeroPoint
+
+    def build():
+        mesh1 = generate_mesh({"num_y": 5, "num_x": 2, "wing_type": "rect", "symmetry": True})
+        mesh2 = generate_mesh({"num_y": 5, "num_x": 2, "wing_type": "rect", "symmetry": False, "span": 4.0,
+                               "root_chord": 0.8, "offset": np.array([6.0, 0.0, 0.5])})
+        wing = zoo._aero_surface("wing", mesh1, True, np.zeros(2), groundplane=True)
+        tail = zoo._aero_surface("tail", mesh2, False, np.zeros(2), groundplane=True)
+        prob = om.Problem(reports=False)
+        ivc = om.IndepVarComp()
+        for n, v, u in (("v", 50.0, "m/s"), ("alpha", 5.0, "deg"), ("Mach_number", 0.2, None), ("re", 1e6, "1/m"),
+                        ("rho", 1.2, "kg/m**3"), ("cg", np.zeros(3), "m"), ("height_agl", 10.0, "m")):
+            ivc.add_output(n, val=v, units=u)
+        prob.model.add_subsystem("prob_vars", ivc, promotes=["*"])
+        for s in (wing, tail):
+            prob.model.add_subsystem(s["name"], Geometry(surface=s))
+        prob.model.add_subsystem("aero_point_0", AeroPoint(surfaces=[wing, tail]),
+                                 promotes_inputs=["v", "alpha", "Mach_number", "re", "rho", "cg", "height_agl"])
+        for s in (wing, tail):
+            n = s["name"]
+            prob.model.connect(n + ".mesh", "aero_point_0." + n + ".def_mesh")
+            prob.model.connect(n + ".mesh", "aero_point_0.aero_states." + n + "_def_mesh")
+            prob.model.connect(n + ".t_over_c", "aero_point_0." + n + "_perf.t_over_c")
+        return prob
+
+    return _stage_runner(build)
+
+
+def _bad_even_num_y_crm():
+    from openaerostruct.geometry.utils import generate_mesh
+
+    def build():
+        generate_mesh({"num_y": 8, "num_x": 3, "wing_type": "CRM", "symmetry": False, "num_twist_cp": 3})
+        return None
+
+    return _stage_runner(build)
+
+
 def _bad_even_num_y():
     from openaerostruct.geometry.utils import generate_mesh
 
@@ -260,7 +361,10 @@ def _warn_mesh_key_twice():
 # name -> (callable, required exception type or None (= any exception is fine), needs_warning substring or None)
 ERROR_TABLE = {
     "ground_effect_without_symmetry": (_bad_ground_no_symmetry, "ValueError", None),
+    "ground_effect_without_symmetry_aerostruct": (_bad_ground_no_symmetry_aerostruct, "ValueError", None),
+    "ground_effect_second_surface_not_symmetric": (_bad_ground_second_surface_not_symmetric, "ValueError", None),
     "even_num_y": (_bad_even_num_y, "ValueError", None),
+    "even_num_y_crm_full_span": (_bad_even_num_y_crm, "ValueError", None),
     "unknown_wing_type": (_bad_wing_type, "NameError", None),
     "unknown_fem_model_type_struct": (_bad_fem_model_type_struct, None, None),
     "unknown_fem_model_type_aerostruct": (_bad_fem_model_type_aerostruct, None, None),
